@@ -102,6 +102,9 @@ def rule_grammar(ctx, prods, rule="R2"):
 def check(ctx):
     prods = rule_tv(ctx, "R1")
     rule_grammar(ctx, prods, "R2")
+    # the arms' timelines are written by the same emission code as timeline!: positions, durations, delays, counts (C15/R5)
+    from rules import c15
+    c15.rule_emitted_numbers(ctx, "R3")
     ctx.notes.append("'behaves identically over any history' follows from equal builder inputs: the builder is deterministic "
                      "code (C05/R4). Not decided: blocks outside the corpus.")
     ctx.assumptions += ["the generator's encoding of the documented reading (witness/gen.py)",
